@@ -11,7 +11,7 @@ import (
 
 func init() {
 	props["C16"] = c16
-	floors["C16"] = map[string]int{"C16.R1": 2, "C16.R2": 13, "C16.R3": 6, "C16.R4": 4, "C16.R5": 5}
+	floors["C16"] = map[string]int{"C16.R1": 2, "C16.R2": 13, "C16.R3": 6, "C16.R4": 5, "C16.R5": 5, "C16.R6": 1}
 }
 
 // caseStrings collects, for a function, the string constants compared (==)
@@ -215,10 +215,47 @@ func c16(r *Report) {
 						lits = append(lits, s)
 					}
 				}
+				// or a package-level list that is ranged over
+				if ld, ok := in.(*ssa.UnOp); ok {
+					if g, isG := ld.X.(*ssa.Global); isG {
+						if vals, _ := w.stringSliceVar("proxyutil", g.Name()); len(vals) > 0 {
+							lits = append(lits, vals...)
+						}
+					}
+				}
 			}
+			lits = uniq(lits)
 			sort.Strings(lits)
 			r.Decide("table", "(*M/proxyutil.Header).Map lists the three synthetic headers", strings.Join(lits, ",") == strings.Join(want, ","), strings.Join(lits, ", "), fmt.Sprintf("Map adds %v, want %v: a HAR entry misses Host / Content-Length / Transfer-Encoding", lits, want), mp.Pos())
 		}
+	})
+
+	r.Guard("C16.R6", "the values of the synthetic headers win over stale entries of the raw header map", func() {
+		hdr := w.Named("proxyutil", "Header")
+		mp := w.method(hdr, "Map")
+		if mp == nil {
+			r.Undecided("M/proxyutil.Header.Map", "UNRESOLVED")
+			return
+		}
+		var syn, raw []ssa.Instruction
+		for _, in := range instrs(mp) {
+			mu, ok := in.(*ssa.MapUpdate)
+			if !ok {
+				continue
+			}
+			if anyIn(w.backSlice(mu.Value, flowOpt{}), func(v ssa.Value) bool { return isCallValue(v, "(*M/proxyutil.Header).All") || isExtractOfCall(v, "(*M/proxyutil.Header).All") }) {
+				syn = append(syn, mu)
+			} else {
+				raw = append(raw, mu)
+			}
+		}
+		ok := len(syn) == 1 && len(raw) == 1
+		if ok {
+			g := G(mp)
+			// once a synthetic value is stored, the raw copy loop does not run again
+			ok = g.PathTo([]ssa.Instruction{syn[0]}, false, nil, func(i ssa.Instruction) bool { return i == raw[0] }) == nil
+		}
+		r.Decide("path", "(*M/proxyutil.Header).Map: synthetic Host / Content-Length / Transfer-Encoding are written after the raw header copy", ok, "raw copy first, synthetic values last", "the raw header map is copied over the synthetic values: a stale Content-Length entry of a wire-parsed message wins over the true length in HAR entries", mp.Pos())
 	})
 
 	r.Guard("C16.R4", "the JSON forms of post data and content are written and read with the same encoding vocabulary", func() {
@@ -246,6 +283,18 @@ func c16(r *Report) {
 			dec := len(plainCalls(u, "(*encoding/base64.Encoding).DecodeString")) == 1
 			r.Decide("sibling", "M/har.Content: base64 text is encoded and decoded with the same alphabet", enc && dec && sameBase64(m, u), "StdEncoding on both sides", "the two directions use different base64 variants (or one does not transcode)", m.Pos())
 		}
+		// response content is arbitrary bytes: it is marked base64 unless the bytes were checked to be UTF-8
+		okEnc := false
+		for _, a := range allocsOf(nres, M+"/har.Content") {
+			for _, st := range litFieldStores(a)["Encoding"] {
+				if s, isC := constString(st.Val); isC && s == "base64" {
+					okEnc = true
+				} else if anyIn(w.backSlice(st.Val, flowOpt{Calls: true}), func(v ssa.Value) bool { return isCallValue(v, "unicode/utf8.Valid") || isCallValue(v, "unicode/utf8.ValidString") }) {
+					okEnc = true
+				}
+			}
+		}
+		r.Decide("flow", "M/har.NewResponse: response text is marked base64 (or checked to be valid UTF-8)", okEnc, "Encoding: \"base64\"", "the content encoding is chosen without looking at the bytes (for instance from the declared Content-Type): non-UTF-8 bodies are mangled by the JSON round trip", nres.Pos())
 		m, u = w.method(pdT, "MarshalJSON"), w.method(pdT, "UnmarshalJSON")
 		if m == nil || u == nil {
 			r.Undecided("M/har.PostData JSON methods", "UNRESOLVED")
